@@ -1,4 +1,4 @@
-package main
+package hxlib
 
 // Parser of the garbler->evaluator byte stream of one streaming session
 // (ideal OT: the stream carries only Program.Stream's own messages).  Used
@@ -11,19 +11,34 @@ import (
 	"fmt"
 )
 
-type circRec struct {
-	Step, Gates, Tmp, NumWires int
+// StreamGate is one parsed gate record of a streamed circuit.
+type StreamGate struct {
+	Op               int // circuit.Operation
+	ATmp, BTmp, CTmp bool
+	Wide             bool // 32-bit id encoding
+	A, B, C          int
+	Rows             [][]byte // table rows, 16 bytes each
 }
 
-type transcript struct {
-	Err     string
-	Circs   []circRec
-	RetIDs  []int
-	Gates16 int
-	Gates32 int
-	NIn1    int
-	NIn2    int
-	NOut    int
+// StreamCirc is one OpCircuit block: header fields and (with keepGates) its
+// gate records.
+type StreamCirc struct {
+	Step, Gates, Tmp, NumWires int
+	Recs                       []StreamGate
+}
+
+// StreamTranscript is the parsed garbler->evaluator stream of one session.
+type StreamTranscript struct {
+	Err      string
+	Key      []byte
+	InLabels [][]byte // the garbler's own input labels, as sent
+	Circs    []StreamCirc
+	RetIDs   []int
+	Gates16  int
+	Gates32  int
+	NIn1     int
+	NIn2     int
+	NOut     int
 }
 
 type rd struct {
@@ -92,10 +107,12 @@ func (r *rd) arg(depth int) int {
 	return bits
 }
 
-func parseTranscript(b []byte) *transcript {
-	t := &transcript{}
+// ParseStreamTranscript parses the bytes the streaming garbler sent (Duplex.AB.Rec
+// of an ideal-OT session).  keepGates keeps every gate record with its rows.
+func ParseStreamTranscript(b []byte, keepGates bool) *StreamTranscript {
+	t := &StreamTranscript{}
 	r := &rd{b: b}
-	r.data() // key
+	t.Key = append([]byte(nil), r.data()...)
 	t.NIn1 = r.arg(0)
 	t.NIn2 = r.arg(0)
 	no := r.u32()
@@ -105,6 +122,9 @@ func parseTranscript(b []byte) *transcript {
 	r.u32() // number of steps
 	// garbler's input labels
 	if r.need(16 * t.NIn1) {
+		for i := 0; i < t.NIn1; i++ {
+			t.InLabels = append(t.InLabels, append([]byte(nil), r.b[r.pos+16*i:r.pos+16*i+16]...))
+		}
 		r.pos += 16 * t.NIn1
 	}
 	for r.err == nil {
@@ -114,8 +134,7 @@ func parseTranscript(b []byte) *transcript {
 		}
 		switch op {
 		case 1: // OpCircuit
-			c := circRec{Step: r.u32(), Gates: r.u32(), Tmp: r.u32(), NumWires: r.u32()}
-			t.Circs = append(t.Circs, c)
+			c := StreamCirc{Step: r.u32(), Gates: r.u32(), Tmp: r.u32(), NumWires: r.u32()}
 			for g := 0; g < c.Gates && r.err == nil; g++ {
 				gop := r.u8()
 				wide := gop&0x10 == 0
@@ -136,17 +155,32 @@ func parseTranscript(b []byte) *transcript {
 				default:
 					r.err = fmt.Errorf("bad gate op %#x at %d", gop, r.pos)
 				}
+				var ids [3]int
 				for k := 0; k < nw; k++ {
 					if wide {
-						r.u32()
+						ids[k] = r.u32()
 					} else {
-						r.u16()
+						ids[k] = r.u16()
 					}
 				}
+				rec := StreamGate{Op: gop & 0x0f, ATmp: gop&0x80 != 0, BTmp: gop&0x40 != 0, CTmp: gop&0x20 != 0,
+					Wide: wide, A: ids[0], B: ids[1], C: ids[2]}
+				if nw == 2 {
+					rec.B, rec.C = 0, ids[1]
+				}
 				if r.need(16 * rows) {
+					if keepGates {
+						for k := 0; k < rows; k++ {
+							rec.Rows = append(rec.Rows, append([]byte(nil), r.b[r.pos+16*k:r.pos+16*k+16]...))
+						}
+					}
 					r.pos += 16 * rows
 				}
+				if keepGates {
+					c.Recs = append(c.Recs, rec)
+				}
 			}
+			t.Circs = append(t.Circs, c)
 		case 2: // OpReturn
 			for i := 0; i < t.NOut; i++ {
 				t.RetIDs = append(t.RetIDs, r.u32())
